@@ -5,6 +5,7 @@ build/selftest.json; exit 0 iff all as expected.  Never touches /repo."""
 import concurrent.futures as cf, json, os, shutil, subprocess, sys, tempfile
 
 CB = 'src/circular_buffer.rs'
+MC = 'rustradio_macros/src/lib.rs'
 M = [
  # (property, file, old, new, expected rc)
  ('C02', CB, 'range((Included(s.rpos), Excluded(newpos)))', 'range((Excluded(s.rpos), Excluded(newpos)))', 1),
@@ -50,6 +51,18 @@ M = [
  ('C02', 'src/stream.rs', '        Arc::clone(&self.circ).read_buf()\n', '        let (b, mut t) = Arc::clone(&self.circ).read_buf()?;\n        t.dedup_by(|a, b| a.pos() == b.pos());\n        Ok((b, t))\n', 1),
  ('C08', 'src/symbol_sync.rs', '            // Stay around zero so that we don\'t lose float precision.\n', '            // Stay near zero so that we do not lose float precision.\n', 0),   # benign
  ('C14', 'src/sigmf.rs', '        let sample_size = T::size();\n        let have = self.buf.len() / sample_size;\n        let want = o.len();', '        let sample_size = T::size();\n        let want = o.len();\n        let have = self.buf.len() / sample_size;', 0),   # benign: independent statements swapped
+ # the derive macro: checked through the macro EXPANSION (units syncx, synclib)
+ ('C19', MC, 'return Ok(#path::block::BlockRet::WaitForStream(&self.#out_names, 1));', 'return Ok(#path::block::BlockRet::WaitForStream(&self.#first, 1));', 1),
+ ('C19', MC, 'fold(n, |min, &x|min.min(x))', 'fold(usize::MAX, |min, &x|min.min(x))', 1),
+ ('C19', MC, 'if true #(&&self.#in_names.eof())* {', 'if false #(||self.#in_names.eof())* {', 1),
+ ('C19', MC, '#(#out_names.produce(n, &otags);)*', '#(#out_names.produce(n, &[]);)*', 1),
+ ('C19', MC, '.filter(|t| t.pos() == pos)', '.filter(|t| t.pos() <= pos)', 1),           # shape the rules do not know: decided by the bounded stand-in
+ ('C19', MC, '#(#in_names.consume(n);)*', '#first.consume(n);', 1),
+ ('C19', MC, '#(#out_names: #out_names.0,)*', '#(#out_names: #out_names.0,)* ', 0),   # benign: whitespace in the generator
+ ('C19', MC, '// Clamp n to be no more than the input available.', '// Clamp n to the input that is available.', 0),   # benign: comment
+ ('C12', MC, '#(#out_names.produce(n, &otags);)*', '#(#out_names.produce(n, &[]);)*', 1),
+ ('C09', MC, 'return Ok(#path::block::BlockRet::WaitForStream(&self.#out_names, 1));', 'return Ok(#path::block::BlockRet::WaitForStream(&self.#first, 1));', 1),
+ ('C08', MC, '#(#in_names.consume(n);)*', '#first.consume(n);', 1),
 ]
 
 def one(m):
